@@ -703,6 +703,40 @@ func runWorker(id, shardJSON string) int {
 }
 
 // narrowShards: like yearShards, but the quick tier uses a narrower seam set (for checks whose states cost ~1 ms or more).
+// weightedYearShards: contiguous year ranges over 1..maxYear of about equal weight, a year of the quick set counting
+// heavy times a plain year (thorough tiers that run a deeper pass on the quick set's years: without the weights the
+// shards holding 1900..2040 run ten times longer than the rest).
+func weightedYearShards(tier string, seed int64, maxYear int, heavy int, n int) []Shard {
+	base := Shard{Tier: tier, Seed: seed}
+	in := map[int]bool{}
+	total := 0
+	for _, y := range quickYears(seed, maxYear) {
+		in[y] = true
+	}
+	wt := func(y int) int {
+		if in[y] {
+			return heavy
+		}
+		return 1
+	}
+	for y := 1; y <= maxYear; y++ {
+		total += wt(y)
+	}
+	per := (total + n - 1) / n
+	var out []Shard
+	lo, acc := 1, 0
+	for y := 1; y <= maxYear; y++ {
+		acc += wt(y)
+		if acc >= per || y == maxYear {
+			sh := base
+			sh.Ranges = [][2]int{{lo, y}}
+			out = append(out, sh)
+			lo, acc = y+1, 0
+		}
+	}
+	return out
+}
+
 func narrowShards(tier string, seed int64) []Shard {
 	if tier == "thorough" {
 		return yearShards(tier, seed, 9998, "")
